@@ -569,7 +569,7 @@ def gen(rng, tier):
         for n in range(1, depth + 1):
             words = itertools.product(range(len(alpha)), repeat=n)
             if n > full:
-                k = 120 if quick else 800
+                k = 120 if quick else 400
                 words = [tuple(rng.randrange(len(alpha)) for _ in range(n)) for _ in range(k)]
             for word in words:
                 ops, tid = [], 0
@@ -582,7 +582,7 @@ def gen(rng, tier):
                         ops.append(list(o))
                 cases.append({"limit": lim, "ops": ops + [["drain"]]})
     # random longer schedules
-    for _ in range(350 if quick else 3000):
+    for _ in range(350 if quick else 1500):
         lim = rng.choice([0, 1, 1, 2, 3, 4])
         ops, tid = [], 0
         for _ in range(rng.randrange(4, 40)):
